@@ -111,15 +111,65 @@ Definition body_x86 (lanes : program) (out : nat) (gsum : N -> N) (a b : list N)
   sum_list (map (fun p => gsum (eval 4 lanes out (word_of (fst p)) (word_of (snd p))))
                 (combine (chunks_exact 4 a) (chunks_exact 4 b))).
 
+(* ---- the x86 wrappers distance_32 / distance_64 around the packed kernels ----
+   A vector is the list of its 32-bit lanes (4 for __m128i, 8 for __m256i); loads are little-endian.
+   The shuffle immediates, the extracted lanes and the chunk counts are regenerated from the source (Gen/Kernels.v). *)
+Fixpoint zipN (f : N -> N -> N) (a b : list N) : list N :=
+  match a, b with
+  | x :: a', y :: b' => f x y :: zipN f a' b'
+  | _, _ => []
+  end.
+
+(* packed_distance_as_*: one value per 32-bit granule ([gsum] = the kernel's epilogue on that granule) *)
+Definition lanes_of (gsum : N -> N) (lanes : program) (out : nat) (x y : list N) : list N :=
+  map (fun p => gsum (eval 4 lanes out (word_of (fst p)) (word_of (snd p)))) (combine (chunks_exact 4 x) (chunks_exact 4 y)).
+
+(* _mm_shuffle_epi32::<imm>: lane i <- source lane (imm >> 2i) & 3; the 256-bit form works per 128-bit half *)
+Definition shuffle32_4 (imm : N) (s : list N) : list N :=
+  map (fun i => nth (N.to_nat ((imm / 4 ^ i) mod 4)) s 0) [0; 1; 2; 3].
+Definition shuffle32 (imm : N) (s : list N) : list N :=
+  if Nat.eqb (length s) 8 then shuffle32_4 imm (firstn 4 s) ++ shuffle32_4 imm (skipn 4 s) else shuffle32_4 imm s.
+
+Definition add32v : list N -> list N -> list N := zipN (fun x y => (x + y) mod 4294967296).
+(* _mm_add_epi16 on lanes holding two 16-bit words *)
+Definition add16v : list N -> list N -> list N :=
+  zipN (fun x y => (x mod 65536 + y mod 65536) mod 65536 + 65536 * ((x / 65536 + y / 65536) mod 65536)).
+
+(* t = shuffle(s); s = add(s, t), once per immediate *)
+Definition reduce (add : list N -> list N -> list N) (imms : list N) (s : list N) : list N :=
+  fold_left (fun s imm => add s (shuffle32 imm s)) imms s.
+
+(* SSE2's packed kernel ends with 16-bit operations: each 32-bit granule keeps two 16-bit sums *)
+Definition granule_words_sse2 (s : N) : N :=
+  let lo := s mod 65536 in let hi := s / 65536 in
+  let f h := ((h * 256) mod 65536) / 256 + h / 256 in
+  f lo + 65536 * f hi.
+
+(* x86_sse2 / x86_sse4_1: accumulate the chunk vectors, reduce once *)
+Definition x86_acc (add : list N -> list N -> list N) (gsum : N -> N) (lanes : program) (out : nat) (imms : list N)
+  (finish : list N -> N) (vec : nat) (a b : list N) : N :=
+  let vs := map (fun p => lanes_of gsum lanes out (fst p) (snd p)) (combine (chunks_exact vec a) (chunks_exact vec b)) in
+  finish (reduce add imms (fold_left add vs (repeat 0 (Nat.div vec 4)))).
+
+(* x86_avx2: reduce every 256-bit chunk, add the scalars *)
+Definition x86_each (add : list N -> list N -> list N) (gsum : N -> N) (lanes : program) (out : nat) (imms : list N)
+  (finish : list N -> N) (vec : nat) (a b : list N) : N :=
+  sum_list (map (fun p => finish (reduce add imms (lanes_of gsum lanes out (fst p) (snd p))))
+                (combine (chunks_exact vec a) (chunks_exact vec b))).
+
+Definition finish_lane0 (s : list N) : N := nth 0 s 0.                                   (* _mm_cvtsi128_si32 *)
+Definition finish_sse2 (s : list N) : N := let t := nth 0 s 0 in (t mod 65536 + t / 65536) mod 4294967296.
+Definition finish_extract (idx : list nat) (s : list N) : N := sum_list (map (fun i => nth i s 0) idx).
+
 Definition dist_body (c : ccfg) (a b : list N) : N :=
   if Nat.eqb (length a) 12 then
     (* distance_12 always uses the scalar kernels (usize::BITS >= 64 on this target) *)
     (if cc_body c =? 0 then body_pseudo32 a b else body_pseudo64 a b)
   else if cc_body c =? 0 then body_pseudo32 a b
   else if cc_body c =? 1 then body_pseudo64 a b
-  else if cc_body c =? 2 then body_x86 sse2_lanes sse2_out granule_sum_sse2 a b
-  else if cc_body c =? 3 then body_x86 sse41_lanes sse41_out granule_sum_mullo a b
-  else body_x86 avx2_lanes avx2_out granule_sum_mullo a b.
+  else if cc_body c =? 2 then x86_acc add16v granule_words_sse2 sse2_lanes sse2_out sse2_reduce finish_sse2 16 a b
+  else if cc_body c =? 3 then x86_acc add32v granule_sum_mullo sse41_lanes sse41_out sse41_reduce finish_lane0 16 a b
+  else x86_each add32v granule_sum_mullo avx2_lanes avx2_out avx2_reduce (finish_extract avx2_extract) 32 a b.
 
 (* ---- compare_with_config / max_distance ---- *)
 Definition compare {E} (c : ccfg) (a b : hash) (m : cmp_mode) : outcome E N :=
